@@ -870,7 +870,7 @@ def space_cases(rng, tier, S):
              ('P', [('T', 'float64', (3,)), ('T', 'int64', (3,))]),
              ('P', [('T', 'int64', (3,))] * 2),
              ('P', [('T', 'float64', (1,))])]
-    nrand = 10 if quick else 60
+    nrand = 4 if quick else 60
     recipes = list(fixed)
     for _ in range(nrand):
         recipes.append(rand_recipe(rng, rng.choice(['real', 'real', 'cx', 'int', 'mixed']), rng.randint(1, 3)))
@@ -1417,7 +1417,7 @@ def probes(rng, tier):
     # 1f. integer spaces with entries beyond 2**53, exact comparison with Python integers
     for dtype in ('int64', 'uint64'):
         for sk in ('tensor', 'discr', 'pspace'):
-            for n in (3, 120):
+            for n in ((3, 120) if (sk == 'tensor' or not quick) else (3,)):
                 for alias in ALIAS:
                     for a, b in [(1, 1), (1, -1), (-1, 1), (0, 1), (1, 0), (2, -1)]:
                         neg = (a < 0 or b < 0) and dtype == 'uint64'
